@@ -31,6 +31,14 @@ def table_diagnostics():
 
 
 def run(chk):
+    operators.pin()
+    try:
+        run_pinned(chk)
+    finally:
+        operators.unpin()
+
+
+def run_pinned(chk):
     quick = chk.tier == "quick"
     chk.rule = ("programs of `let v = f args…` lines over the full public function set of primitiv::functions, generated from one PRNG "
                 "with a live model driver supplying the static shape of every variable: valid programs (shapes of depth 0..3 with size-1 "
@@ -42,15 +50,21 @@ def run(chk):
                 "real library in lock-step (ASan/UBSan build, both PRIMITIV_USE_CACHE settings) and on the table-driven Lean model. "
                 "Non-trivial = the implementation accepted the call / produced values (output starts with ok); distinct = distinct lines.")
     unsup = []
-    try:
-        operators.generate()
-        unsup = operators.unsupported_entries()
-    except Exception as e:
-        chk.report("translator-failure", "translate/operators.py failed on the working tree: %r" % (e,), {"error": repr(e)}, found_input=False)
-        return
-    # the driver is needed by the generators even when a theorem fails
-    lean.lake(["build", "drv_funcs"], timeout=3000)
-    ob = chk.obligations(MODS, drivers=["funcs"])
+    ob = None
+    for attempt in range(3):
+        try:
+            txt = operators.generate()
+            unsup = operators.unsupported_entries()
+        except Exception as e:
+            chk.report("translator-failure", "translate/operators.py failed on the working tree: %r" % (e,), {"error": repr(e)}, found_input=False)
+            return
+        # the driver is needed by the generators even when a theorem fails
+        lean.lake(["build", "drv_funcs"], timeout=3000)
+        chk.oblig = None
+        ob = chk.obligations(MODS, drivers=["funcs"])
+        # Gen/OpTable.lean is shared: a concurrent check of another working tree may have rewritten it meanwhile
+        if open(operators.OUT).read() == txt:
+            break
     if not os.path.exists(os.path.join(lean.LEAN_DIR, ".lake", "build", "bin", "drv_funcs")):
         chk.report("build-failure:drv_funcs", "the model driver does not build: " + ob["log_tail"][-800:], {"log": ob["log_tail"]}, found_input=False)
         return
